@@ -194,6 +194,40 @@ def comm_case(arg: tuple[int, str, int]) -> list[str]:
             if any(e['ev'] in ('issue', 'wait') for e in w2.events):
                 bad.append(f'{api} shape {shape}: communication took place '
                            f'although the tensor is rejected')
+    # ... also when earlier tensors are PENDING in a bucket: the rejected
+    # tensor (too large for the rest of the bucket, or of another dtype) must
+    # not cause the pending bucket to be communicated
+    for shape, bdt in [((30, 20), dt), ((8, 8, 8), dt),
+                       ((3, 2), torch.float64 if dt == torch.float32
+                        else torch.float32)]:
+        state: dict[int, Any] = {}
+
+        def body3(r: int) -> None:
+            comm = TorchDistributedCommunicator(bucket_cap_mb=0.001)
+            good = torch.eye(10, dtype=dt) * (r + 1)
+            f0 = comm.allreduce_bucketed(good, symmetric=True)
+            try:
+                comm.allreduce_bucketed(torch.zeros(shape, dtype=bdt),
+                                        symmetric=True)
+                state[r] = 'accepted'
+            except NonSquareTensorError:
+                state[r] = 'raised'
+            w_ = simdist._WORLD
+            state[('issued', r)] = sum(
+                1 for e in w_.events
+                if e['ev'] == 'issue' and e.get('rank') == r)
+            comm.flush_allreduce_buckets()
+            f0.wait()
+
+        w3 = simdist.World(2, simdist.LazyCompletion(seed))
+        w3.run(body3)
+        if not all(state.get(r) == 'raised' for r in range(2)):
+            bad.append(f'allreduce_bucketed accepted shape {shape} with a '
+                       f'pending bucket')
+        elif any(state.get(('issued', r), 0) for r in range(2)):
+            bad.append(f'allreduce_bucketed shape {shape} {bdt}: the pending '
+                       f'bucket was communicated although the tensor is '
+                       f'rejected')
     return bad
 
 
